@@ -1,5 +1,5 @@
 """C10 — field types: the decoder clause, the constants clause and two structural clauses of the batched / tower operations."""
-from ..core import walk, callee, peel, pat_bindings, short
+from ..core import walk, callee, peel, pat_bindings, short, norm as norm_
 from ..engines import checked, hirq
 from .. import tables
 
@@ -275,9 +275,15 @@ def r2_strict(ck, w):
 
 # ---------------------------------------------------------------- nesting profile (shared with C11)
 # conversions and borrows that carry no decision: adding or removing one (a needless clone, `iter()` for `into_iter()`, `to_vec()`) is not an operation of the profile
-PLUMBING = ('::Clone::clone', '::ToOwned::to_owned', '::Borrow::borrow', '::AsRef::as_ref', '::AsMut::as_mut', '::IntoIterator::into_iter', '::iter', '::iter_mut',
-            '::Iterator::copied', '::Iterator::cloned', '::to_vec', '::as_slice', '::as_mut_slice', '::as_str', '::ToString::to_string', '::Deref::deref',
-            '::DerefMut::deref_mut', '::Iterator::collect', '::Iterator::by_ref', '::Into::into')
+PLUMBING = {'clone', 'to_owned', 'borrow', 'as_ref', 'as_mut', 'into_iter', 'iter', 'iter_mut', 'copied', 'cloned', 'to_vec', 'as_slice', 'as_mut_slice', 'as_str',
+            'to_string', 'deref', 'deref_mut', 'collect', 'by_ref', 'into', 'map', 'for_each', 'try_for_each', 'enumerate', 'par_iter', 'into_par_iter', 'par_iter_mut',
+            'take', 'skip'}      # (take / skip: their ADDITION is what the narrowing profile N2 reports)
+
+
+def is_plumbing(c):
+    """conversions, borrows and iteration drivers carry no decision of their own: adding or removing one (a needless clone, `iter()` for `into_iter()`, a `for` loop
+    for `try_for_each`) is not an operation of the profile — what the loop body or the closure does is"""
+    return c.rsplit('::', 1)[-1] in PLUMBING and not c.startswith(('midnight_', '<midnight_'))
 
 
 def nesting_profile(f, builtin=False):
@@ -312,7 +318,7 @@ def nesting_profile(f, builtin=False):
         if k in ('call', 'mcall') and ('f' in n or 'rs' in n):
             c = callee(n)
             if c and not c.startswith(('core::fmt', 'core::panicking', 'std::panicking', 'core::option::Option::Some', 'core::result::Result::Ok')) \
-                    and not (builtin and c.endswith(PLUMBING)):
+                    and not (builtin and is_plumbing(c)):
                 prof.setdefault(c, []).append(d)
         elif k in ('bin', 'assignop', 'un') and n.get('f'):
             prof.setdefault((n.get('f') or '') + ':' + str(n.get('op')), []).append(d)
@@ -329,7 +335,7 @@ def nesting_profile(f, builtin=False):
             elif k == 'cast' and n.get('t'):
                 prof.setdefault('cast as ' + str(n['t']), []).append(d)
             elif k == 'struct' and 'ops::range::' in (n.get('p') or ''):
-                prof.setdefault('range ' + str(n['p']).rsplit('::', 1)[-1], []).append(d)
+                prof.setdefault('range inclusive' if 'Inclusive' in str(n['p']) else 'range', []).append(d)
         if k == 'if':
             rec(n['c'], d)
             rec(n['a'], d + 1)
@@ -346,7 +352,82 @@ def nesting_profile(f, builtin=False):
         for c2 in children(n):
             rec(c2, d)
     rec(f['body'], 0)
+    if builtin:
+        for key, n_ in use_profile(f).items():
+            prof[key] = [0] * n_
     return {k2: sorted(v) for k2, v in prof.items()}
+
+
+def use_profile(f):
+    """One-level def-use shape of the calls of workspace functions: {`use <callee> arg<j> <- <origin>`: sites}.  The origin of an argument is where its value
+    comes from, named without any local name: a parameter position (`#2`, `#2.x` for a field of a parameter), the callee whose result it is (directly or through a
+    `let`), a constant / literal, or `expr`.  Exchanging two operands, handing a call the wrong (type-compatible) variable or the wrong field changes an origin."""
+    from collections import Counter
+    from ..core import alias_roots, pat_bindings
+    params = {}
+    for j, p_ in enumerate(f.get('params', [])):
+        for b in pat_bindings(p_):
+            params[b['i']] = f'#{j}'
+    lets = {}
+    mutated = set()
+    for x in walk(f['body']):
+        if x.get('k') == 'let' and 'init' in x and x.get('pat', {}).get('k') == 'bind':
+            lets[x['pat']['i']] = x['init']
+            if x['pat'].get('mut'):
+                mutated.add(x['pat']['i'])
+        elif x.get('k') in ('assign', 'assignop'):
+            l = peel(x['lhs'])
+            while l.get('k') in ('field', 'index'):
+                l = peel(l['e'])
+            if l.get('k') == 'local':
+                mutated.add(l['i'])
+
+    def origin(e, depth=0):
+        e = peel(e)
+        while e.get('k') in ('try', 'cast', 'stmt') or (e.get('k') == 'mcall' and not e.get('args') and (callee(e) or '').rsplit('::', 1)[-1] in PLUMBING):
+            e = peel(e['recv'] if e.get('k') == 'mcall' else e['e'])
+        k = e.get('k')
+        if k == 'lit':
+            return 'literal'
+        if k == 'path':
+            return 'const ' + short(norm_(e.get('p') or ''))
+        if k in ('call', 'mcall'):
+            c = callee(e)
+            return ('result of ' + short(c)) if c else 'expr'
+        if k == 'field' and not str(e.get('n', '')).isdigit():
+            o = origin(e['e'], depth)
+            return o + '.' + e['n'] if o.startswith('#') else o
+        if k in ('field', 'index'):
+            return origin(e['e'], depth)
+        if k == 'local':
+            i = e['i']
+            if i in params:
+                return params[i]
+            if i in mutated:
+                return 'mutable local'
+            if i in lets and depth < 4:
+                return origin(lets[i], depth + 1)
+            return 'local'
+        if k == 'closure':
+            return 'closure'
+        return 'expr'
+    prof = Counter()
+    for x in walk(f['body']):
+        if x.get('k') not in ('call', 'mcall'):
+            continue
+        c = callee(x) or ''
+        if not c.startswith(('midnight_', '<midnight_')) or c.rsplit('::', 1)[-1] in PLUMBING:
+            continue
+        args = ([x['recv']] if x.get('k') == 'mcall' else []) + list(x.get('args', []))
+        for j, a in enumerate(args):
+            t = (peel(a).get('t') or a.get('t') or '')
+            if 'Layouter' in t or 'Region' in t:
+                continue
+            o = origin(a)
+            if o in ('expr', 'local', 'closure', '#0') and j == 0 and x.get('k') == 'mcall':
+                continue            # the receiver chip / self
+            prof[f'use {short(c)} arg{j} <- {o}'] += 1
+    return dict(prof)
 
 
 def profile_dominates(cur, ref):
@@ -415,25 +496,26 @@ def eval_nesting(ck, w, prop, rule):
 
 
 OPS_SCOPES = {
-    # property -> (crates, file prefixes): code whose operations (resolved callees, overloaded operators, built-in integer operators and comparisons) are profiled
-    'C19': (['circuits'], ('circuits/src/parsing/',)),
-    'C14': (['proofs'], ('proofs/src/poly/kzg/', 'proofs/src/poly/query.rs', 'proofs/src/utils/arithmetic.rs')),
-    'C02': (['proofs'], ('proofs/src/plonk/permutation/', 'proofs/src/plonk/keygen.rs', 'proofs/src/dev/mod.rs', 'proofs/src/dev/util.rs', 'proofs/src/plonk/lookup/verifier.rs',
-                         'proofs/src/plonk/trash/verifier.rs', 'proofs/src/plonk/vanishing/verifier.rs')),
-    'C01': (['proofs'], ('proofs/src/plonk/prover.rs', 'proofs/src/plonk/verifier.rs', 'proofs/src/plonk/evaluation.rs', 'proofs/src/plonk/lookup/prover.rs',
-                         'proofs/src/plonk/trash/prover.rs', 'proofs/src/plonk/vanishing/prover.rs', 'proofs/src/poly/domain.rs')),
-    'C03': (['proofs', 'zk_stdlib'], ('proofs/src/transcript/', 'zk_stdlib/src/lib.rs')),
+    # property -> (crates, file prefixes): code whose operations (resolved callees, overloaded operators, built-in operators, literals, ...) are profiled.
+    # Scopes overlap on purpose: a file belongs to every property whose behaviour it takes part in.
+    'C19': (['circuits'], ('circuits/src/parsing/', 'circuits/src/instructions/base64.rs')),
+    'C14': (['proofs', 'circuits'], ('proofs/src/poly/', 'proofs/src/utils/arithmetic.rs', 'circuits/src/verifier/kzg.rs')),
+    'C02': (['proofs'], ('proofs/src/plonk/', 'proofs/src/dev/mod.rs', 'proofs/src/dev/util.rs', 'proofs/src/dev/failure.rs', 'proofs/src/circuit/')),
+    'C01': (['proofs'], ('proofs/src/plonk/', 'proofs/src/poly/', 'proofs/src/circuit/', 'proofs/src/utils/arithmetic.rs')),
+    'C03': (['proofs', 'zk_stdlib'], ('proofs/src/transcript/', 'proofs/src/plonk/verifier.rs', 'proofs/src/plonk/mod.rs', 'zk_stdlib/src/lib.rs')),
     'C04': (['circuits'], ('circuits/src/field/native/', 'circuits/src/field/decomposition/', 'circuits/src/vec/', 'circuits/src/map/', 'circuits/src/utils/',
-                           'circuits/src/instructions/')),
+                           'circuits/src/instructions/', 'circuits/src/types')),
     'C05': (['circuits'], ('circuits/src/field/foreign/', 'circuits/src/biguint/')),
     'C06': (['circuits'], ('circuits/src/ecc/',)),
     'C07': (['circuits'], ('circuits/src/hash/',)),
-    'C15': (['proofs', 'circuits'], ('proofs/src/poly/commitment.rs', 'proofs/src/poly/kzg/msm.rs', 'circuits/src/verifier/accumulator.rs', 'circuits/src/verifier/msm.rs')),
+    'C15': (['proofs', 'circuits', 'zk_stdlib'], ('proofs/src/poly/commitment.rs', 'proofs/src/poly/kzg/', 'circuits/src/verifier/accumulator.rs', 'circuits/src/verifier/msm.rs',
+                                                   'zk_stdlib/src/lib.rs')),
     'C16': (['proofs', 'zk_stdlib', 'zkir', 'aggregator'], ('proofs/src/utils/', 'proofs/src/plonk/mod.rs', 'proofs/src/poly/kzg/', 'proofs/src/plonk/verifier.rs',
-                                                            'proofs/src/plonk/permutation.rs', 'zk_stdlib/src/utils/', 'zkir/src/zkir.rs', 'aggregator/src/light_aggregator.rs')),
-    'C08': (['circuits', 'zk_stdlib', 'zkir', 'aggregator'], ('circuits/src/', 'zk_stdlib/src/', 'zkir/src/', 'aggregator/src/')),
-    'C17': (['proofs'], ('proofs/src/plonk/permutation.rs', 'proofs/src/plonk/permutation/keygen.rs', 'proofs/src/plonk/keygen.rs', 'proofs/src/plonk/circuit.rs',
-                         'proofs/src/poly/mod.rs', 'proofs/src/poly/domain.rs')),
+                                                            'proofs/src/plonk/permutation.rs', 'proofs/src/plonk/lookup/verifier.rs', 'proofs/src/plonk/trash/verifier.rs',
+                                                            'proofs/src/plonk/vanishing/verifier.rs', 'proofs/src/plonk/permutation/verifier.rs', 'proofs/src/transcript/',
+                                                            'zk_stdlib/src/utils/', 'zk_stdlib/src/lib.rs', 'zkir/src/zkir.rs', 'zkir/src/parser/', 'aggregator/src/light_aggregator.rs')),
+    'C08': (['circuits', 'zk_stdlib', 'zkir', 'aggregator', 'proofs'], ('circuits/src/', 'zk_stdlib/src/', 'zkir/src/', 'aggregator/src/', 'proofs/src/plonk/mod.rs')),
+    'C17': (['proofs', 'zk_stdlib'], ('proofs/src/plonk/', 'proofs/src/poly/', 'proofs/src/utils/helpers.rs', 'zk_stdlib/src/utils/')),
     'C18': (['zkir'], ('zkir/src/',)),
     'C20': (['aggregator', 'circuits'], ('aggregator/src/', 'circuits/src/verifier/')),
 }
@@ -456,7 +538,7 @@ def ops_functions(w, prop):
     for f in w.all_fns(crates):
         if '::tests::' in f['_nid'] or '/tests' in f['file'] or f['file'].endswith('tests.rs') or not f['file'].startswith(prefixes) or seen[f['_xid']] > 1:
             continue
-        if prop == 'C08' and not any(t in (f.get('name') or '') for t in ('public_input', 'publish', 'format_instance', 'committed_scalars')):
+        if prop == 'C08' and not any(t in (f.get('name') or '') for t in ('public_input', 'publish', 'format_instance', 'committed_scalars', 'transcript_repr', 'from_parts', 'hash_into')):
             continue            # the encoders and binders of public inputs, wherever they live
         yield f
 
